@@ -83,6 +83,18 @@ CLAIMED.update({
                      'and !keep. Does not decide file-system effects themselves.', ref='5 (C17)'),
 })
 
+CLAIMED.update({
+    'C21': dict(cat='other', tech='error-discipline rule at every system-call site (failure edge must reach fail*/warn*), loop-exit and must-pass-through rules on xread/xwrite/fail*/bailout, signal-table comparison',
+                text='Decides: the failure value of every read/write/close/open/stat/unlink/fchown/fchmod/futimens/'
+                     'fclose/printf/pthread_create result is tested and its failure edge reaches a fatal fail* (read, '
+                     'write, close) or a documented warn*/info*; xread/xwrite leave their loops only at EOF / chunk '
+                     'full / all written and advance by what the call returned; fail* never return and suppress only '
+                     'the message, only for EPIPE/EFBIG; log_generic failures reach bailout; bailout unblocks exactly '
+                     'SIGPIPE/SIGXFSZ before _exit(1) on the main thread and raises SIGUSR1 from sub-threads, which '
+                     'halt() turns into bailout; main exits 0/4 only past a checked close(stdout). Promptness and '
+                     'absence of hangs are NOT decided.', ref='5 (C21)'),
+})
+
 NA = {
     'C01': 'round-trip equality is a numerical fact about RLE/BWT/MTF/Huffman and its inverse over all byte strings; '
            'no sound static argument in reach bounds it (DESIGN.md section 6); its shape-level fragments are decided '
